@@ -40,19 +40,40 @@ def rand_ext(rng, depth=0):
     return {rng.choice(["a", "b", "credProtect", 1, 2, -1, b"k"]): rand_ext(rng, depth + 1) for _ in range(rng.randrange(0, 4))}
 
 
+# semantic tags cbor2 has a decoder for (dates, bignums, decimal fractions, bigfloats, shared references, rationals,
+# regular expressions, MIME, UUID, sets, IP addresses / networks, self-described CBOR) and some it has none for
+TAGS = [0, 1, 2, 3, 4, 5, 28, 29, 30, 35, 36, 37, 100, 256, 258, 260, 261, 1004, 43000, 55799]
+TAG_INNERS = [b"\x03", b"\x63abc", b"\x41\x00", b"\x80", b"\xa0", b"\xf6", b"\x82\x01\x02", b"\x82\x01\x00", b"\x50" + bytes(16),
+              b"\xf9\x7e\x00", b"\x20", b"\x82\x20\x00", b"\x83\x01\x02\x03",
+              # wrongly typed members of decimal fractions / bigfloats / rationals, out-of-range dates, non-text regexps
+              b"\x82\x61\x61\x01", b"\x82\x01\x61\x61", b"\x82\xf6\x01", b"\x82\x01\xf6", b"\x82\x41\x00\x01",
+              b"\x1a\xff\xff\xff\xff", b"\x1b\xff\xff\xff\xff\xff\xff\xff\xff", b"\x3b\xff\xff\xff\xff\xff\xff\xff\xff",
+              b"\x00", b"\x82\x01\x00", b"\x82\x00\x00", b"\xfb\x7f\xf0\x00\x00\x00\x00\x00\x00", b"\x62\x28\x3f",
+              # pairs of two texts, exponents / mantissas far outside what a decimal context or a float can hold, NaN members
+              b"\x82\x61\x61\x61\x62", b"\x82\x1b\x00\x00\x00\xe8\xd4\xa5\x10\x00\x01", b"\x82\x01\x1b\x00\x00\x00\xe8\xd4\xa5\x10\x00",
+              b"\x82\x3b\x00\x00\x00\xe8\xd4\xa5\x10\x00\x01", b"\x82\xf9\x7e\x00\x01", b"\x82\x01\xf9\x7c\x00",
+              b"\x82\xc2\x49" + b"\xff" * 9 + b"\x01", b"\x63\x2a\x2a\x2a", b"\x78\x18" + b"2024-13-45T25:61:61+99:99"[:24]]
+
+
+def tagged(tag, inner):
+    return cbor2.dumps(cbor2.CBORTag(tag, 0))[:-1] + inner
+
+
+def tagged_all():
+    """every tag over every payload, bare and as a map member"""
+    for tag in TAGS:
+        for inner in TAG_INNERS:
+            j = tagged(tag, inner)
+            yield j
+            yield b"\xa1\x61\x6b" + j
+
+
 def exotic_cbor(rng):
     """CBOR that cbor2 decodes through special paths: semantic tags over wrongly typed content, bignums, fractions,
     half floats, simple values, indefinite lengths, deep nesting, huge declared lengths"""
     t = rng.randrange(12)
     if t == 0:   # tag n over a value of the wrong type
-        tag = rng.choice([0, 1, 2, 3, 4, 5, 28, 29, 30, 35, 36, 37, 100, 256, 258, 260, 261, 1004, 43000, 55799])
-        inner = rng.choice([b"\x03", b"\x63abc", b"\x41\x00", b"\x80", b"\xa0", b"\xf6", b"\x82\x01\x02", b"\x82\x01\x00", b"\x50" + bytes(16),
-                            b"\xf9\x7e\x00", b"\x20", b"\x82\x20\x00", b"\x83\x01\x02\x03",
-                            # wrongly typed members of decimal fractions / bigfloats / rationals, out-of-range dates, non-text regexps
-                            b"\x82\x61\x61\x01", b"\x82\x01\x61\x61", b"\x82\xf6\x01", b"\x82\x01\xf6", b"\x82\x41\x00\x01",
-                            b"\x1a\xff\xff\xff\xff", b"\x1b\xff\xff\xff\xff\xff\xff\xff\xff", b"\x3b\xff\xff\xff\xff\xff\xff\xff\xff",
-                            b"\x00", b"\x82\x01\x00", b"\x82\x00\x00", b"\xfb\x7f\xf0\x00\x00\x00\x00\x00\x00", b"\x62\x28\x3f"])
-        return cbor2.dumps(cbor2.CBORTag(tag, 0))[:-1] + inner
+        return tagged(rng.choice(TAGS), rng.choice(TAG_INNERS))
     if t == 1:
         return bytes([0xc0 + rng.randrange(24)]) + rng.bytes_(rng.randrange(0, 6))
     if t == 2:
@@ -85,6 +106,23 @@ def work(tasks, idx):
     creds = _auth.creds()
     for seed, n in tasks:
         rng = common.Rng(seed)
+        if n < 0:
+            # the systematic stream: every semantic tag over every payload, given to parse_cbor itself, as the credential key and
+            # as the extension data - refused (or decoded), never with an exception from outside the hierarchy
+            from webauthn.helpers import parse_cbor as _pc
+            for junk in tagged_all():
+                outs = [("parse_cbor", corr.code_outcome(lambda: _pc(junk), lambda r: "ok"))]
+                for fl, kw in ((0x41, {"cose": junk}), (0x81, {"ext": junk}), (0xC1, {"cose": creds[0].cose(), "ext": junk})):
+                    b = core.auth_data(bytes(32), fl, 1, aaguid=bytes(16), cred_id=b"tagged-cbor-id", **kw)
+                    outs.append(("parse_auth_data", cases.code_parse_auth_data(b)))
+                for op, code in outs:
+                    res.evaluations += 1
+                    res.count("tagged:" + corr.kind(code))
+                    if code["k"] == "oom" or (code["k"] == "reject" and ("nonlib" in code or code.get("lib") not in LIB)):
+                        res.violations.append({"why": f"{op} on tagged CBOR raised {code.get('nonlib') or code.get('lib') or code.get('msg')}: {str(code.get('msg'))[:120]}",
+                                               "b": junk.hex(), "match": {"op": op, "rule": "library-exception"}})
+                res.nontrivial.add(junk)
+            continue
         for _ in range(n):
             c = rng.choice(creds)
             flags = rng.randrange(256)
@@ -188,7 +226,7 @@ def work(tasks, idx):
 
 def run(ctx, res):
     n = 1200 if ctx.quick() else 30000
-    tasks = [(ctx.seed * 15485863 + i, n) for i in range(16)]
+    tasks = [(ctx.seed * 15485863 + i, n) for i in range(16)] + [(0, -1)]
     work.driver_ok = ctx.driver_ok
     corr.merge(res, corr.parallel(work, tasks))
     res.rule = ("authenticator data laid out per the spec over all flag bytes, RP ID hashes, counters, AAGUIDs, credential-id lengths "
